@@ -157,6 +157,7 @@ def correspondence(ctx, model_ok=True):
     residue_obs = {}
     nontrivial = 0
     runners = [("release", ctx.runner)]
+    spec_steps = 0
     try:
         runners.append(("dev", ctx.build_runner("dev", ())))
     except Exception as e:
@@ -166,6 +167,10 @@ def correspondence(ctx, model_ok=True):
         lb = [vlib.case_line("b%d" % i, steps_of(b), steps=2000000) for i, (a, b, k) in enumerate(hists)]
         ra = vlib.run_real(exe, la)
         rb = vlib.run_real(exe, lb)
+        if bname == "release" and model_ok:
+            sd = specdiff.diff_lines(ctx, la, ra, broken, what="history", payload_of=lambda i: {"history": hists[i][0], "kinds": hists[i][2]})
+            failures += sd["failures"]
+            spec_steps = sd["compared"]
         for i, ((a, b, kinds), xa, xb) in enumerate(zip(hists, ra, rb)):
             oa, ob = observed(xa), observed(xb)
             if oa is None or ob is None:
@@ -251,7 +256,7 @@ def correspondence(ctx, model_ok=True):
         "samples": [hists[0][0]],
         "snippet_kinds": kinds_seen,
         "residue_observations": residue_obs,
-        "histories": n_hist,
+        "histories": n_hist, "steps_compared_with_reference_interpreter": spec_steps,
         "reset_vs_new_pairs": n_reset,
     }
     return {"failures": dedupe(failures), "coverage": cov, "broken": broken}
@@ -278,6 +283,8 @@ def dedupe(failures):
 
 
 def replay(ctx, payload):
+    if "case_line" in payload:
+        return specdiff.replay_line(ctx, payload)
     if "history" not in payload:
         return False, "nothing to replay"
     exe = ctx.build_runner("dev", ()) if payload.get("build") == "dev" else ctx.runner
